@@ -6,8 +6,10 @@
   the table obligations over the generated struct description.  The scalar fragment of the full round
   trip is `roundtrip_scalar_fragment`; the round trip of whole schema trees (every keyword; no nil child) is
   `roundtrip_tree` (helper lemmas: JSV/Proofs/MshTree.lean); what is missing for the full statement is listed
-  after it.  For reference-free trees the tree read back accepts the same instances: `roundtrip_tree_meaning_partial`
-  (helper lemmas: JSV/Proofs/IsoValid.lean).
+  after it.  The tree read back accepts the same instances: `roundtrip_tree_meaning_partial` (reference-free trees, any
+  tables; helper lemmas: JSV/Proofs/IsoValid.lean) and `roundtrip_tree_meaning_resolved_partial` (trees with references, both sides
+  resolved; helper lemmas: JSV/Proofs/ResIso*.lean, ResIsoNorm.lean — Resolve commutes with a renaming of node ids and
+  does not see the normal forms).
 -/
 import JSV.Proofs.MshRound
 import JSV.Proofs.MshScalar
@@ -15,6 +17,7 @@ import JSV.Proofs.MshFacts
 import JSV.Proofs.MshTree
 import JSV.Proofs.IsoValid
 import JSV.Proofs.RefineCheck
+import JSV.Proofs.ResIsoNorm
 namespace JSV.C05
 open JSV Go
 
@@ -317,9 +320,9 @@ theorem normal_forms_invisible (env : Spec.Env) (st : Store) (hst : Refine.Store
     up to the order of the evaluated-property list, in particular the same verdict, with every amount of fuel.
     Proof: the normal forms are invisible (`normal_forms_invisible`), and validity is invariant under the renaming of node
     ids that `Go.TreeEq` describes (`Iso.evalFuel_sim`).
-    PARTIAL: trees containing `$ref` / `$dynamicRef` are not covered — their meaning depends on what `Resolve` computes
-    for each of the two trees; the statement then needs `Resolve` on both sides and "the two resolutions are related"
-    (`Iso.TablesSim`), not proved. -/
+    PARTIAL: trees containing `$ref` / `$dynamicRef` are not covered by THIS statement (arbitrary, unrelated tables) —
+    their meaning depends on what `Resolve` computes for each of the two trees; for them see `treeEq_meaning_resolved_partial` /
+    `roundtrip_tree_meaning_resolved_partial` below (`Resolve` on both sides; the two resolutions are related, `Go.RIso.treeEq_resolves`). -/
 theorem treeEq_meaning_partial {st st' : Store} {d : Nat} {a b : NodeId} (hte : Go.TreeEq st st' d a b)
     (hfree : Go.treeAll Iso.noRefs st d a = true) (hst : Refine.StoreWF st) (env env' : Spec.Env)
     (hd : env.draft = env'.draft) (hre : env.reMatch = env'.reMatch) (fuel : Nat) (inst : Json)
@@ -368,11 +371,101 @@ theorem treeEq_validate_same_partial {d : Nat} {a b : NodeId} (env₁ env₂ : G
   exact Iso.same_verdict_of_outSim h (Refine.validate_refines_spec_root env₁ hwf₁ hst₁ fuel a inst hinst)
     (Refine.validate_refines_spec_root env₂ hwf₂ hst₂ fuel b inst hinst) hdec
 
+/-! ## the tree read back means the same (trees WITH references: both sides resolved) -/
+
+/-- `treeEq_resolves_partial`: **Resolve commutes with the JSON round trip** (self-contained resolution: no Loader, or
+    a Loader that hands out no document — `Go.RIso.NoDocs`).  `b` in `st'` is the tree read back from the well-formed
+    tree below `a` in `st` (`Go.TreeEq`); the maps of `st` have distinct keys (`Go.RPerm.StoreKeysNodup`: they are Go
+    maps; decidable, `Go.RPerm.keysNodupB`); both stores are smaller than the model's nil id 10^9.  If `Resolve` of `a`
+    returns normally and checkStructure accepts `b`, then `Resolve` of `b` — same options, same base URI, same fuel —
+    returns normally, with the same draft and the same Loader log, and every instance (without duplicate keys) gets Spec
+    results from the two that agree up to the order in which evaluated property names are listed — in particular the same
+    verdict — with every amount of fuel, whatever `$ref` / `$dynamicRef` / `$id` / `$anchor` / `$dynamicAnchor` the tree
+    contains.  Every normal form of `Go.normNode` is invisible to Resolve: the nil-vs-empty ones and the fields it does
+    not read (`Go.RIso.rnode_preNorm`; an empty `$vocabulary` / `$defs` coming back as nil only REMOVES a reason for
+    checkLocal to fail, which is why the statement is directional), the order of the maps (`resolve_perm_invariant`,
+    C14), the rebuilt children (`Go.RIso.resolve_rel`, the simulation of the resolver along a renaming of node ids).
+    PARTIAL in one respect: "checkStructure accepts `b`" — i.e. the tree read back is a tree, every JSON object having
+    been decoded into a fresh `Schema` — is assumed, not derived from the model of UnmarshalJSON (for CloneSchemas the
+    corresponding fact is proved: `C20.clone_is_tree`). -/
+theorem treeEq_resolves_partial (st st' : Store) (env : Go.Env) (hnd : Go.RIso.NoDocs env)
+    (hk : Go.RPerm.StoreKeysNodup st) (hs : st.size ≤ 1000000000) (hs' : st'.size ≤ 1000000000) {a b : NodeId} {d : Nat}
+    (hte : Go.TreeEq st st' d a b) (hwf : Go.treeAll Go.nodeOK st d a = true) (fuel : Nat) (base : String)
+    (rs : Go.Resolved) (h₁ : Go.resolve { env with st := st } fuel a base = .ok rs) (f' : Nat)
+    (fresh' : List (NodeId × Go.Info)) (hcs : Go.checkStructure st' f' [(b, "")] [] = .ok fresh') :
+    ∃ rs', Go.resolve { env with st := st' } fuel b base = .ok rs' ∧ rs.draft = rs'.draft ∧ rs.log = rs'.log ∧
+      ∀ (reMatch : String → String → Bool) (vfuel : Nat) (inst : Json), Json.WF inst = true →
+        Inv.OutSim (Spec.evalFuel (Go.RIso.specOf st rs reMatch) vfuel [] a inst)
+            (Spec.evalFuel (Go.RIso.specOf st' rs' reMatch) vfuel [] b inst) ∧
+          Spec.valid (Go.RIso.specOf st rs reMatch) vfuel a inst =
+            Spec.valid (Go.RIso.specOf st' rs' reMatch) vfuel b inst := by
+  obtain ⟨rs', h₂, e1, e2, e3⟩ := Go.RIso.treeEq_resolves st st' env hnd hk hs hs' hte
+    (Go.treeAll_imp Go.RIso.orderOK_of_nodeOK hwf) fuel base h₁ hcs
+  exact ⟨rs', h₂, e1, e2, fun reMatch vfuel inst hinst =>
+    ⟨e3 reMatch vfuel inst hinst, Iso.valid_of_outSim (e3 reMatch vfuel inst hinst)⟩⟩
+
+/-- `treeEq_meaning_resolved_partial`: two trees equal up to the normal forms of the round trip (`Go.TreeEq`), EACH
+    RESOLVED ON ITS OWN (same options, base URI and fuel), have the same draft and Loader log and accept the same
+    instances: Spec results that agree up to the order of the evaluated-property list, the same verdict, with every
+    amount of fuel.  No hypothesis on `$ref` / `$dynamicRef`.
+    PARTIAL: (i) the resolution is self-contained (`NoDocs`: documents fetched through a Loader are not covered — for
+    CloneSchemas they are, `C20.clone_validates_same_docs`); (ii) that `Resolve` of the second tree returns normally is
+    a hypothesis here (`h₂`); it follows from `Resolve` of the first one returning normally when checkStructure accepts
+    the second tree (`treeEq_resolves_partial`). -/
+theorem treeEq_meaning_resolved_partial (st st' : Store) (env : Go.Env) (hnd : Go.RIso.NoDocs env)
+    (hk : Go.RPerm.StoreKeysNodup st) (hs : st.size ≤ 1000000000) (hs' : st'.size ≤ 1000000000) {a b : NodeId} {d : Nat}
+    (hte : Go.TreeEq st st' d a b) (hwf : Go.treeAll Go.nodeOK st d a = true) (fuel : Nat) (base : String)
+    (rs rs' : Go.Resolved) (h₁ : Go.resolve { env with st := st } fuel a base = .ok rs)
+    (h₂ : Go.resolve { env with st := st' } fuel b base = .ok rs') :
+    rs.draft = rs'.draft ∧ rs.log = rs'.log ∧
+      ∀ (reMatch : String → String → Bool) (vfuel : Nat) (inst : Json), Json.WF inst = true →
+        Inv.OutSim (Spec.evalFuel (Go.RIso.specOf st rs reMatch) vfuel [] a inst)
+            (Spec.evalFuel (Go.RIso.specOf st' rs' reMatch) vfuel [] b inst) ∧
+          Spec.valid (Go.RIso.specOf st rs reMatch) vfuel a inst =
+            Spec.valid (Go.RIso.specOf st' rs' reMatch) vfuel b inst := by
+  obtain ⟨fresh', hcs⟩ := Go.RIso.resolve_ok_cs { env with st := st' } fuel b base rs' h₂
+  obtain ⟨rs'', h₂', e1, e2, e3⟩ := treeEq_resolves_partial st st' env hnd hk hs hs' hte hwf fuel base rs h₁ _ fresh' hcs
+  rw [h₂] at h₂'
+  cases h₂'
+  exact ⟨e1, e2, e3⟩
+
+/-- **`roundtrip_tree_meaning_resolved_partial`** (C05, no carve-out on references).  For a well-formed tree (`TreeWF`)
+    in a store whose maps have distinct keys: whatever MarshalJSON writes, UnmarshalJSON reads back — into any store
+    `st₂` — as a tree `id'` such that, whenever the original and the tree read back are EACH RESOLVED ON ITS OWN (same
+    options, same base URI, stores below the nil id), they have the same draft and Loader log and accept exactly the same
+    instances (the same verdict; Spec results equal up to the order of the evaluated-property list), with every amount
+    of fuel — trees with `$ref` / `$dynamicRef` / `$id` / `$anchor` / `$dynamicAnchor` included.
+    PARTIAL: (i) self-contained resolution only (`NoDocs`); (ii) that `Resolve` of the tree read back does return
+    normally when `Resolve` of the original does is `treeEq_resolves_partial`, up to: the tree read back is accepted by
+    checkStructure (UnmarshalJSON decodes every JSON object into a fresh `Schema`; not derived from its model). -/
+theorem roundtrip_tree_meaning_resolved_partial (st : Store) (id : NodeId) (j : Json) (st₂ : Store)
+    (hwf : TreeWF st id) (hj : Go.marshal st id = .ok j) (hk : Go.RPerm.StoreKeysNodup st)
+    (hs : st.size ≤ 1000000000) (env : Go.Env) (hnd : Go.RIso.NoDocs env) :
+    ∃ id' st₂', Go.unmarshal j st₂ = .ok (id', st₂') ∧
+      ∀ (fuel : Nat) (base : String) (rs rs' : Go.Resolved), st₂'.size ≤ 1000000000 →
+        Go.resolve { env with st := st } fuel id base = .ok rs →
+        Go.resolve { env with st := st₂' } fuel id' base = .ok rs' →
+        rs.draft = rs'.draft ∧ rs.log = rs'.log ∧
+          ∀ (reMatch : String → String → Bool) (vfuel : Nat) (inst : Json), Json.WF inst = true →
+            Inv.OutSim (Spec.evalFuel (Go.RIso.specOf st rs reMatch) vfuel [] id inst)
+                (Spec.evalFuel (Go.RIso.specOf st₂' rs' reMatch) vfuel [] id' inst) ∧
+              Spec.valid (Go.RIso.specOf st rs reMatch) vfuel id inst =
+                Spec.valid (Go.RIso.specOf st₂' rs' reMatch) vfuel id' inst := by
+  obtain ⟨id', st₂', hu, hte, -⟩ := roundtrip_tree st id j st₂ hwf hj
+  have hok : Go.treeAll Go.nodeOK st (st.size + 2) id = true :=
+    Go.treeAll_mono (Go.treeAll_mono (Go.treeAll_imp
+      (fun n hn => by simp only [Go.nodeWF, Bool.and_eq_true] at hn; exact hn.1) hwf))
+  exact ⟨id', st₂', hu, fun fuel base rs rs' hs' h₁ h₂ =>
+    treeEq_meaning_resolved_partial st st₂' env hnd hk hs hs' hte hok fuel base rs rs' h₁ h₂⟩
+
 /-! ### What is missing for the full round trip
-  * `roundtrip_tree_meaning` (the two trees accept the same instances) is proved for reference-free trees only
-    (`roundtrip_tree_meaning_partial`, through the invariance of validity under a renaming of NodeIds,
-    `Iso.evalFuel_sim`); for trees with `$ref` / `$dynamicRef` the statement needs `Resolve` of both stores and
-    "the two resolutions are related along `Go.TreeEq`"; `treeEq_marshal` is the corresponding statement for MarshalJSON;
+  * `roundtrip_tree_meaning_resolved_partial` (the two trees accept the same instances, references included) is proved for the two trees
+    EACH RESOLVED ON ITS OWN, self-contained resolution (`Go.RIso.NoDocs`: documents fetched through a Loader are not
+    covered); that `Resolve` of the tree read back returns normally whenever `Resolve` of the original does is
+    `treeEq_resolves_partial`, which assumes that checkStructure accepts the tree read back (UnmarshalJSON decodes every
+    JSON object into a fresh `Schema`: not derived from the model of UnmarshalJSON; for CloneSchemas the corresponding
+    fact is `C20.clone_is_tree`); the evaluator-level corollary (`Go.validateFuel`) is stated for reference-free trees
+    only (`treeEq_validate_same_partial`); `treeEq_marshal` is the corresponding statement for MarshalJSON;
   * nil children (`null` elements of schema lists / maps come back as nil pointers, a nil `*Schema` field that is
     set explicitly cannot be told from an absent one);
   * `any`-typed values (enum, const, examples, Extra) are covered in the form encoding/json writes (`Go.jsonSorted`);
@@ -635,6 +728,79 @@ example (st₂ : Store) (env : Spec.Env) :
 /-- … and these verdicts are defined and not all the same -/
 example : Spec.valid (exSpecEnv exTree) 4 0 (.obj [("a", .num 1), ("b", .str "xy")]) = some true := by decide
 example : Spec.valid (exSpecEnv exTree) 4 0 (.obj [("a", .num 1), ("b", .str "xy"), ("c", .null)]) = some false := by decide
+
+/-! ### `roundtrip_tree_meaning_resolved_partial` is not vacuous: a tree WITH `$ref` (by pointer and by `$anchor`), `$dynamicRef`,
+  `$dynamicAnchor`, `$id`; `$defs` is listed in descending key order, so it comes back reordered -/
+
+def exRT : Store := #[
+  { id := "http://a/root.json", type := "object", ref := "#/$defs/len", dynamicRef := "#d", allOf := some [4],
+    properties := some [("a", 1)], defs := some [("pos", 3), ("len", 2)], required := some ["a"] },   -- 0
+  { type := "string" },                                                                              -- 1
+  { minProperties := some 1, dynamicAnchor := "d" },                                                  -- 2
+  { anchor := "pos", maxProperties := some 2 },                                                       -- 3
+  { ref := "#pos" }]                                                                                  -- 4
+def exRTEnv : Go.Env := { st := exRT, reOk := fun _ => true, loader := none }
+
+theorem exRT_wf : TreeWF exRT 0 := by decide
+theorem exRT_keys : Go.RPerm.StoreKeysNodup exRT := Go.RPerm.storeKeysNodup_of_check _ (by decide)
+theorem exRTEnv_noDocs : Go.RIso.NoDocs exRTEnv := fun _ _ _ h => nomatch h
+
+/-- the theorem applies … -/
+example : ∃ j id' st₂', Go.marshal exRT 0 = .ok j ∧ Go.unmarshal j #[] = .ok (id', st₂') ∧
+    ∀ (fuel : Nat) (base : String) (rs rs' : Go.Resolved), st₂'.size ≤ 1000000000 →
+      Go.resolve exRTEnv fuel 0 base = .ok rs → Go.resolve { exRTEnv with st := st₂' } fuel id' base = .ok rs' →
+      rs.draft = rs'.draft ∧ rs.log = rs'.log ∧
+        ∀ (reMatch : String → String → Bool) (vfuel : Nat) (inst : Json), Json.WF inst = true →
+          Inv.OutSim (Spec.evalFuel (Go.RIso.specOf exRT rs reMatch) vfuel [] 0 inst)
+              (Spec.evalFuel (Go.RIso.specOf st₂' rs' reMatch) vfuel [] id' inst) ∧
+            Spec.valid (Go.RIso.specOf exRT rs reMatch) vfuel 0 inst =
+              Spec.valid (Go.RIso.specOf st₂' rs' reMatch) vfuel id' inst := by
+  have hok : (Go.marshal exRT 0).isOk = true := by decide +kernel
+  cases hj : Go.marshal exRT 0 with
+  | ok j =>
+    obtain ⟨id', st₂', hu, h⟩ := roundtrip_tree_meaning_resolved_partial exRT 0 j #[] exRT_wf hj exRT_keys (by decide) exRTEnv
+      exRTEnv_noDocs
+    exact ⟨j, id', st₂', rfl, hu, h⟩
+  | fuel => rw [hj] at hok; cases hok
+  | panic => rw [hj] at hok; cases hok
+  | err => rw [hj] at hok; cases hok
+
+/-- … both Resolve calls do return normally: the original records (schema, `$ref` target, `$dynamicRef` target) … -/
+example : ((Go.resolve exRTEnv 1 0 "").bind fun rs => .ok (rs.infos.map fun (e : NodeId × Go.Info) =>
+      (e.1, e.2.resolvedRef, e.2.resolvedDynamicRef))) =
+    .ok [(0, some 2, some 2), (3, none, none), (2, none, none), (4, some 3, none), (1, none, none)] := by
+  decide +kernel
+
+/-- … and the tree read back (root 4; "a" ↦ 0, len ↦ 1, pos ↦ 2, allOf[0] ↦ 3): the same tables up to the renaming -/
+example : (match Go.marshal exRT 0 with
+    | .ok j => match Go.unmarshal j #[] with
+      | .ok (id', st') => (Go.resolve { exRTEnv with st := st' } 1 id' "").bind fun rs =>
+          .ok (rs.infos.map fun (e : NodeId × Go.Info) => (e.1, e.2.resolvedRef, e.2.resolvedDynamicRef))
+      | _ => .err
+    | _ => .err) =
+    .ok [(4, some 1, some 1), (1, none, none), (2, none, none), (3, some 2, none), (0, none, none)] := by
+  decide +kernel
+
+/-- … and the verdicts are defined, use the references, and are not all the same -/
+example : (match Go.resolve exRTEnv 1 0 "" with
+    | .ok rs =>
+      [Spec.valid (Go.RIso.specOf exRT rs fun _ _ => false) 4 0 (.obj [("a", .str "x")]),
+       Spec.valid (Go.RIso.specOf exRT rs fun _ _ => false) 4 0 (.obj [("a", .str "x"), ("b", .null), ("c", .null)]),
+       Spec.valid (Go.RIso.specOf exRT rs fun _ _ => false) 4 0 (.obj [("a", .num 1)])]
+    | _ => []) = [some true, some false, some false] := by
+  decide +kernel
+
+/-- why `treeEq_resolves_partial` is DIRECTIONAL (Resolve of the original succeeds ⇒ Resolve of the tree read back
+    succeeds, not conversely): an EMPTY non-nil `Vocabulary` map beside a `$schema` other than 2020-12 is refused by
+    checkLocal, but `omitempty` does not write it, so the tree read back — a well-formed tree — resolves -/
+example : TreeWF #[{ vocabulary := some [], type := "string" }] 0 ∧
+    (Go.resolve { exRTEnv with st := #[{ vocabulary := some [], type := "string" }] } 1 0 "").verdict = some false ∧
+    (match Go.marshal #[{ vocabulary := some [], type := "string" }] 0 with
+      | .ok j => match Go.unmarshal j #[] with
+        | .ok (id', st') => (Go.resolve { exRTEnv with st := st' } 1 id' "").verdict
+        | _ => none
+      | _ => none) = some true := by
+  refine ⟨by decide, by decide +kernel, by decide +kernel⟩
 
 /-! why the results are compared up to the ORDER of the evaluated-property list (`Inv.OutSim`) and not by equality: the
     Spec lists evaluated property names in the order the keywords produce them, and `dependentSchemas` — a Go map, written
